@@ -152,6 +152,15 @@ def pinned_cases():
                         "strategy": ["uniform", "starveD", "eagerD"][len(out) % 3],
                         "opts": {"labels": 1, "sopt": 0, "createfail": i, "k": (i + f) % 2},
                         "createfail_case": True})
+    # (f) a transport that wants resolved addresses (like rsh; `resolve 1`): every target is looked up through the
+    #     harness's resolver (one static result buffer, like libc's) and the stub checks the address it is handed;
+    #     every mutex operation and the instant after an unlock are scheduling points
+    for f in (2, 3):
+        for sd in range(60):
+            out.append({"fanout": f, "hosts": [{"name": "a%d" % j} for j in range(3)],
+                        "seed": 9500 + 31 * sd + f, "budget": 40000, "yield": "all,misc", "inline": 0,
+                        "strategy": "uniform",
+                        "opts": {"labels": 1, "sopt": 0, "resolve": 1}, "resolve_case": True})
     for c in out:
         c["pinned"] = True
     return out
